@@ -2,7 +2,7 @@
 
 Anchor: include/crab/fixpoint/interleaved_fixpoint_iterator.hpp
 """
-from ..tree import (walk, walk_with_parents, strip, is_call, is_ref, is_this, is_field,
+from ..tree import (walk, walk_with_parents, strip, is_call, is_ref, is_this, is_field, deref,
                     same_expr, same_var, src, children, callee, callee_name, args, obj)
 from .. import paths
 from ..match import (resolve_local, local_decls, writes_to, cmp_parts, guard_truth,
@@ -844,3 +844,169 @@ def initial_states_rule(ctx, rid):
                             sig="iterator-before-set-pre", rid=rid)
     if n == 0:
         ctx.fail("rule %s: no predecessor join found in wto_iterator::visit" % rid)
+
+
+# ------------------------------------------------------------ assumptions cover every stored / propagated pre-state
+class _Strengthened(paths.Flow):
+    """state: frozenset of (value var id, block var id): the value is inside the assumption attached to the block
+    (it went through `v = strengthen(b, v)`, is bottom, or there is no assumption map on this path)."""
+
+    def __init__(self, body, universe_v, universe_b):
+        paths.Flow.__init__(self)
+        self.body = body
+        self.decls = local_decls(body)
+        self.all = frozenset((v, b) for v in universe_v for b in universe_b)
+        self.bs = universe_b
+
+    def initial(self):
+        return frozenset()
+
+    def join(self, a, b):
+        return a & b
+
+    def _val(self, rhs, st):
+        """set of block ids for which the value of expression rhs is inside the assumption"""
+        r = strip_move(rhs)
+        if not isinstance(r, dict):
+            return frozenset()
+        if _is_make_bottom(r):
+            return frozenset(self.bs)
+        if r.get("k") == "ref":
+            return frozenset(b for (v, b) in st if v == r.get("id"))
+        if is_call(r, name="strengthen") and len(r.get("a", [])) == 2:
+            b = strip(r["a"][0])
+            inner = self._val(r["a"][1], st)
+            if isinstance(b, dict) and b.get("k") == "ref":
+                return inner | frozenset([b.get("id")])
+            return inner
+        if is_call(r, name=("extrapolate", "refine")) and len(r.get("a", [])) == 4:
+            return self._val(r["a"][2], st) & self._val(r["a"][3], st)
+        if r.get("k") == "cond":
+            return self._val(r.get("t"), st) & self._val(r.get("e"), st)
+        return frozenset()
+
+    def transfer(self, n, st):
+        k = n.get("k")
+        tgt = rhs = None
+        if k == "decl" and "i" in n:
+            tgt, rhs = n.get("id"), n["i"]
+        elif k == "asg" and isinstance(strip(n.get("L")), dict) and strip(n["L"]).get("k") == "ref":
+            tgt, rhs = strip(n["L"]).get("id"), n.get("R")
+        elif k == "call" and n.get("op") == "=" and "o" in n and isinstance(strip(n["o"]), dict) and strip(n["o"]).get("k") == "ref" and n.get("a"):
+            tgt, rhs = strip(n["o"]).get("id"), n["a"][0]
+        elif k == "call" and n.get("op") in ("|=", "&=", "+=", "-=") and "o" in n and isinstance(strip(n["o"]), dict) and strip(n["o"]).get("k") == "ref":
+            t = strip(n["o"]).get("id")
+            if n.get("op") == "&=":
+                return st                       # a meet stays inside
+            return frozenset(x for x in st if x[0] != t)
+        if tgt is None:
+            return st
+        keep = frozenset(x for x in st if x[0] != tgt)
+        return keep | frozenset((tgt, b) for b in self._val(rhs, st))
+
+    def _no_assumptions(self, cond, pol, depth=0):
+        """does `cond == pol` imply that there is no (or an empty) assumption map?"""
+        c = strip(cond)
+        if not isinstance(c, dict) or depth > 6:
+            return False
+        if c.get("k") == "ref" and c.get("rk") == "local":
+            r = resolve_local(self.body, c, self.decls)
+            return r is not c and self._no_assumptions(r, pol, depth + 1)
+        if is_field(c, "m_assumptions") or (is_field(deref(c) if isinstance(c, dict) else c, "m_assumptions")):
+            return pol is False
+        if is_call(c, name="empty") and is_field(deref(obj(c)) if obj(c) else None, "m_assumptions"):
+            return pol is True
+        if (c.get("k") == "un" and c.get("op") == "!"):
+            return self._no_assumptions(c.get("e"), not pol, depth + 1)
+        if c.get("k") == "call" and c.get("op") == "!" and "o" in c:
+            return self._no_assumptions(c.get("o"), not pol, depth + 1)
+        if c.get("k") == "bin" and c.get("op") == "&&" and pol is False:
+            return self._no_assumptions(c.get("L"), False, depth + 1) and self._no_assumptions(c.get("R"), False, depth + 1)
+        if c.get("k") == "bin" and c.get("op") == "||" and pol is True:
+            return self._no_assumptions(c.get("L"), True, depth + 1) and self._no_assumptions(c.get("R"), True, depth + 1)
+        if c.get("k") == "bin" and c.get("op") in ("==", "!=") and any(is_field(strip(x), "m_assumptions") for x in (c.get("L"), c.get("R"))) \
+                and any(isinstance(strip(x), dict) and strip(x).get("k") in ("nullptr", "lit") for x in (c.get("L"), c.get("R"))):
+            return pol is (c["op"] == "==")
+        return False
+
+    def refine(self, cond, st, pol):
+        if st is not None and self._no_assumptions(cond, pol):
+            return self.all
+        return st
+
+
+def assumption_rule(ctx, rid):
+    """every pre-state that the iterator stores (set_pre) or propagates (compute_post) for a block went through
+    strengthen(block, .) after the last join of predecessor states, unless no assumption map was given"""
+    n_obl = 0
+    for kind in ("wto_vertex", "wto_cycle"):
+        for fn in _fns(ctx, WTOIT + "::visit", psig_contains=kind):
+            body = fn["body"]
+            uses = [c for c, ps in nodes_not_in_log(body, lambda x: is_call(x, name=("set_pre", "compute_post")) and len(x.get("a", [])) == 2)]
+            strs = [c for c in walk(body) if is_call(c, name="strengthen") and len(c.get("a", [])) == 2]
+            if not strs:
+                ctx.bad("visit(%s) never strengthens the joined states with the assumption of the block" % kind, fn, body,
+                        sig="assume-never:%s" % kind, rid=rid)
+                continue
+            uv, ub = set(), set()
+            for c in uses + strs:
+                b, v = strip(c["a"][0]), strip_move(c["a"][1])
+                if isinstance(b, dict) and b.get("k") == "ref":
+                    ub.add(b.get("id"))
+                if isinstance(v, dict) and v.get("k") == "ref":
+                    uv.add(v.get("id"))
+            for d in local_decls(body).values():
+                uv.add(d["id"])
+            f = _Strengthened(body, uv, ub)
+            try:
+                f.run(body)
+            except paths.Unstructured as e:
+                ctx.undecided("unstructured control flow: %s" % e, fn, body, rid=rid)
+                continue
+            for c in uses:
+                st = f.at.get(id(c))
+                if st is None:
+                    continue
+                b, v = strip(c["a"][0]), strip_move(c["a"][1])
+                if not (isinstance(b, dict) and b.get("k") == "ref" and isinstance(v, dict) and v.get("k") == "ref"):
+                    ctx.undecided("%s(%s): arguments are not variables" % (callee(c)["name"], src(c.get("a"))), fn, c, rid=rid)
+                    continue
+                n_obl += 1
+                if (v.get("id"), b.get("id")) in st:
+                    ctx.ok("%s(%s, %s): the value is inside the assumption of the block on every path" % (callee(c)["name"], b.get("n"), v.get("n")),
+                           fn, c, rid=rid)
+                else:
+                    ctx.bad("visit(%s): `%s(%s, %s)` %s a state that was joined from predecessor posts and not met with the assumption "
+                            "attached to `%s` (strengthen): with an assumption at a loop head the states coming back along the back edges "
+                            "escape it and the result is above the least solution under the assumption map"
+                            % (kind, callee(c)["name"], b.get("n"), v.get("n"), "stores" if callee(c)["name"] == "set_pre" else "propagates", b.get("n")),
+                            fn, c, sig="assume-missed:%s:%s:%s" % (kind, callee(c)["name"], v.get("n")), rid=rid)
+    return n_obl
+
+
+def start_covered_rule(ctx, rid):
+    """run(start, init, assumptions) walks m_wto, which the constructor builds from the CFG entry: a start block that the CFG
+    entry does not reach is in no component and nothing is analysed.  Accepted: the start block is looked up in the WTO
+    (m_wto.nesting(start) / a membership visitor) before the traversal, or the traversed WTO is built from the start block."""
+    n = 0
+    for fn in _fns(ctx, ITER + "::run"):
+        if len(fn.get("params", [])) < 2:
+            continue
+        body = fn["body"]
+        n += 1
+        accs = [c for c, ps in nodes_not_in_log(body, lambda x: is_call(x, name="accept") and is_field(obj(x), "m_wto"))]
+        if not accs:
+            continue        # reported by run_rule
+        mentions = lambda e: any(is_param(x, fn, 0) for x in walk(e) if isinstance(x, dict) and x.get("k") == "ref")
+        looked_up = [c for c, ps in nodes_not_in_log(body, lambda x: x.get("k") == "call" and callee(x) and callee(x)["name"] not in ("accept",)
+                                                     and "o" in x and is_field(obj(x), "m_wto") and any(mentions(a) for a in x.get("a", [])))]
+        rebuilt = [d for d in local_decls(body).values() if "wto" in (d.get("t") or "").lower() and "wto_iterator" not in (d.get("t") or "")
+                   and "wto_processor" not in (d.get("t") or "") and "i" in d and mentions(d["i"])]
+        if looked_up or rebuilt:
+            ctx.ok("run(start, ...): the start block is looked up in / used to build the traversed WTO", fn, (looked_up or rebuilt)[0], rid=rid)
+        else:
+            ctx.bad("run(start, init, assumptions) walks the WTO built from the CFG entry without checking that it contains the start "
+                    "block: started at a block the CFG entry does not reach, every component is skipped and every invariant except "
+                    "pre(start) stays bottom (least solution: the states reachable from the start block)", fn, accs[0],
+                    sig="start-not-in-wto", rid=rid)
+    return n
